@@ -89,7 +89,7 @@ def wchoice(rng, pairs):
 
 
 # ------------------------------------------------------------------ AST helpers
-PREC = {"lit": 0, "litf": 0, "var": 0, "paren": 0, "cast": 0, "pow": 1, "neg": 2, "not": 2,
+PREC = {"lit": 0, "litf": 0, "var": 0, "svar": 0, "paren": 0, "cast": 0, "pow": 1, "neg": 2, "not": 2,
         "cmp": 5, "and": 6, "or": 6}
 
 
@@ -136,7 +136,7 @@ def anchored(e):
     """is the type of e fixed by e itself (a variable, a cast, a boolean operator), so that the
     analyzer cannot default its literals to i64 / f64?"""
     k = e["k"]
-    if k in ("var", "cast", "cmp", "and", "or", "not"):
+    if k in ("var", "svar", "cast", "cmp", "and", "or", "not"):
         return True
     if k in ("paren", "neg"):
         return anchored(e["e"])
@@ -228,6 +228,7 @@ class Gen:
         self.known_rate = known_rate
         self.loop_rate = 0.0
         self.lvs = []                 # (index, type) of the enclosing loops' variables / counters
+        self.svars = set()            # indices of stateful variables
 
     def vars_of(self, scope, t):
         return [i for i in scope if self.tys[i] == t]
@@ -237,12 +238,14 @@ class Gen:
         vs = self.vars_of(scope, t)
         x = rng.random()
         if vs and x < 0.62:
-            return {"k": "var", "i": rng.choice(vs), "ty": t}
+            i = rng.choice(vs)
+            return {"k": "svar" if i in self.svars else "var", "i": i, "ty": t}
         if x < 0.74 and scope:
             # cast of a variable of another type
             i = rng.choice(scope)
             if self.tys[i] != t:
-                return {"k": "cast", "t": t, "e": {"k": "var", "i": i, "ty": self.tys[i]}, "ty": t}
+                return {"k": "cast", "t": t,
+                        "e": {"k": "svar" if i in self.svars else "var", "i": i, "ty": self.tys[i]}, "ty": t}
         return mk_lit(rng, t)
 
     def cast_src(self, t):
@@ -482,12 +485,14 @@ class Gen:
                 scope.append(i)
             elif x < 0.49 and assignable:
                 i = rng.choice(assignable)
-                out.append({"k": "assign", "i": i, "e": self.top_expr(self.tys[i], depth, scope, self.tys[i])})
+                out.append({"k": "sassign" if i in self.svars else "assign", "i": i,
+                            "e": self.top_expr(self.tys[i], depth, scope, self.tys[i])})
             elif x < 0.62 and assignable:
                 i = rng.choice(assignable)
                 t = self.tys[i]
                 op = rng.choice("+-*/%" if is_int(t) else "+-*/")
-                out.append({"k": "compound", "i": i, "op": op, "e": self.top_expr(t, depth - 1, scope, t)})
+                out.append({"k": "scompound" if i in self.svars else "compound", "i": i, "op": op,
+                            "e": self.top_expr(t, depth - 1, scope, t)})
             elif x < 0.62 + self.loop_rate and loops < 2 and nest + loops < 3:
                 sts = self.loop(ret, depth, scope, nest, loops, prot)
                 for st in sts:
@@ -507,19 +512,99 @@ class Gen:
         return out, scope
 
 
-def gen_prog(rng, known_rate=1.0, loops=None):
+SINIT = {"f": ["1.0", "2.5", "0.5", "2.0", "1.5", "0.0"], "i": [3, 2, 5, 1, 0, 4]}
+SSTEP = {"f": ["0.5", "1.0", "0.25", "1.25", "2.5"], "i": [1, 2, 3, 1]}
+
+
+def gen_prog(rng, known_rate=1.0, loops=None, state=None):
+    if state is None:
+        state = rng.random() < 0.22
     np_ = rng.choice([1, 2, 2, 2, 3])
     params = [wchoice(rng, TYPE_W) for _ in range(np_)]
     if rng.random() < 0.55:
         params = [params[0]] * np_
+    svt = []
+    if state:
+        # stateful variables ($=): persist across the calls of the case. One or two of them; the
+        # first parameter has the type of the first one, so that it can serve as the step.
+        for _ in range(rng.choice([1, 1, 2])):
+            svt.append(wchoice(rng, [("f64", 30), ("f32", 25), ("i64", 10), ("i32", 10), ("u8", 8), ("u32", 7),
+                                     ("i16", 5), ("u64", 5)]))
+        params[0] = svt[0]
     ret = wchoice(rng, TYPE_W) if rng.random() < 0.6 else params[0]
+    if state and rng.random() < 0.7:
+        ret = svt[0]
     g = Gen(rng, params, known_rate)
     if loops is None:
-        loops = rng.random() < 0.4
+        loops = rng.random() < (0.4 if not state else 0.2)
     g.loop_rate = 0.30 if loops else 0.0
     depth = rng.choice([1, 2, 2, 3, 3, 4])
-    body, _ = g.block(ret, depth, list(range(np_)), 0, True)
-    return {"params": params, "locals": g.tys[np_:], "ret": ret, "body": body}
+    scope = list(range(np_))
+    pre = []
+    for t in svt:
+        i = g.new_local(t)
+        g.svars.add(i)
+        kind = "i" if is_int(t) else "f"
+        if kind == "i":
+            init = {"k": "lit", "t": t, "v": rng.choice(SINIT["i"]), "ty": t}
+        else:
+            txt = rng.choice(SINIT["f"])
+            init = {"k": "litf", "t": t, "text": txt, "bits": fbits(t, float(txt)), "ty": t}
+        pre.append({"k": "sdecl", "i": i, "t": t, "e": init})
+        scope.append(i)
+        # a step towards (and through) zero: x = x - step, x -= c, or a guarded reset to zero
+        me = {"k": "svar", "i": i, "ty": t}
+        y = rng.random()
+        if kind == "i":
+            stepl = {"k": "lit", "t": t, "v": rng.choice(SSTEP["i"]), "ty": t}
+        else:
+            txt = rng.choice(SSTEP["f"])
+            stepl = {"k": "litf", "t": t, "text": txt, "bits": fbits(t, float(txt)), "ty": t}
+        if y < 0.4 and params[0] == t:
+            pre.append({"k": "sassign", "i": i, "e": {"k": "arith", "op": "-", "a": me,
+                                                      "b": {"k": "var", "i": 0, "ty": t}, "ty": t}})
+        elif y < 0.7:
+            pre.append({"k": "scompound", "i": i, "op": "-", "e": stepl})
+        elif y < 0.9:
+            zero = dict(stepl)
+            if kind == "i":
+                zero["v"] = 0
+            else:
+                zero.update({"text": "0.0", "bits": 0})
+            cond = {"k": "cmp", "op": rng.choice([">", "!=", ">="]), "a": dict(me), "b": zero, "ty": "u8"}
+            if rng.random() < 0.5:
+                th = [{"k": "sassign", "i": i, "e": {"k": "arith", "op": "-", "a": dict(me), "b": stepl, "ty": t}}]
+            else:
+                th = [{"k": "sassign", "i": i, "e": dict(zero)}]
+            pre.append({"k": "if", "c": cond, "th": th, "el": None})
+    body, _ = g.block(ret, depth, scope, 0, True)
+    if svt and ret == svt[0] and rng.random() < 0.75:
+        # make the persisted value observable: return it (possibly combined with something else)
+        me = {"k": "svar", "i": np_, "ty": ret}
+        old = body[-1]["e"]
+        if rng.random() < 0.6 or prec(old) > 3:
+            body[-1]["e"] = me
+        else:
+            body[-1]["e"] = {"k": "arith", "op": "+", "a": me, "b": old, "ty": ret}
+            body[-1]["e"] = fix_hints(rng, body[-1]["e"], None, False)
+    return {"params": params, "locals": g.tys[np_:], "ret": ret, "body": pre + body}
+
+
+def gen_call_args(rng, f, n):
+    """argument vectors of one case. For a function with stateful variables the calls form one
+    sequence: a few vectors of small exact steps, each repeated, so that the persisted values pass
+    through exactly 0 / 0.0 and beyond."""
+    if '"sdecl"' not in json.dumps(f["body"]):
+        return gen_args(rng, f, n)
+    def small(t):
+        if is_int(t):
+            return str(canon(t, rng.choice([1, 1, 2, 3, 0])))
+        return str(fbits(t, float(rng.choice(SSTEP["f"] + ["0.0"]))))
+    out = []
+    while len(out) < n:
+        v = [small(t) for t in f["params"]]
+        out += [list(v) for _ in range(rng.choice([2, 3, 4, 5]))]
+    return out[:n]
 
 
 # ------------------------------------------------------------------ printers: Arc source
@@ -533,7 +618,7 @@ def src_expr(f, e):
         return str(e["v"])
     if k == "litf":
         return e["text"]
-    if k == "var":
+    if k in ("var", "svar"):
         return vname(f, e["i"])
     if k == "paren":
         return "(" + src_expr(f, e["e"]) + ")"
@@ -563,9 +648,11 @@ def src_block(f, b, ind):
                 out.append("%s%s := %s" % (pad, vname(f, s["i"]), src_expr(f, s["e"])))
             else:
                 out.append("%s%s %s := %s" % (pad, vname(f, s["i"]), s["t"], src_expr(f, s["e"])))
-        elif k == "assign":
+        elif k == "sdecl":
+            out.append("%s%s %s $= %s" % (pad, vname(f, s["i"]), s["t"], src_expr(f, s["e"])))
+        elif k in ("assign", "sassign"):
             out.append("%s%s = %s" % (pad, vname(f, s["i"]), src_expr(f, s["e"])))
-        elif k == "compound":
+        elif k in ("compound", "scompound"):
             out.append("%s%s %s= %s" % (pad, vname(f, s["i"]), s["op"], src_expr(f, s["e"])))
         elif k == "return":
             out.append("%sreturn %s" % (pad, src_expr(f, s["e"])))
@@ -630,6 +717,8 @@ def c_expr(e):
         return "(ELitF %s %s)" % (e["t"].upper(), cZ(e["bits"]))
     if k == "var":
         return "(EVar %s)" % cnat(e["i"])
+    if k == "svar":
+        return "(ESVar %s)" % cnat(e["i"])
     if k == "paren":
         return "(EParen %s)" % c_expr(e["e"])
     if k == "neg":
@@ -674,6 +763,12 @@ def c_stmt(s):
         return "(SAssign %s %s)" % (cnat(s["i"]), c_expr(s["e"]))
     if k == "compound":
         return "(SCompound %s %s %s)" % (cnat(s["i"]), ARITH[s["op"]], c_expr(s["e"]))
+    if k == "sdecl":
+        return "(SStateDecl %s (%s) %s)" % (cnat(s["i"]), c_ty(s["t"]), c_expr(s["e"]))
+    if k == "sassign":
+        return "(SSAssign %s %s)" % (cnat(s["i"]), c_expr(s["e"]))
+    if k == "scompound":
+        return "(SSCompound %s %s %s)" % (cnat(s["i"]), ARITH[s["op"]], c_expr(s["e"]))
     if k == "return":
         return "(SReturn %s)" % c_expr(s["e"])
     if k == "if":
@@ -786,23 +881,25 @@ def gen_soup(rng):
 
 # ------------------------------------------------------------------ plug-in interface
 def mk_case(rng, f, nargs):
-    return {"kind": "prog", "prog": f, "src": src_func(f), "fn": "f", "args": gen_args(rng, f, nargs)}
+    return {"kind": "prog", "prog": f, "src": src_func(f), "fn": "f", "args": gen_call_args(rng, f, nargs)}
 
 
 def gen_cases(rng, tier, n):
     out = []
     n_soup = n // 4
     for _ in range(n - n_soup):
-        out.append(mk_case(rng, gen_prog(rng), rng.choice([8, 10, 12])))
+        f = gen_prog(rng)
+        out.append(mk_case(rng, f, 12 if '"sdecl"' in json.dumps(f["body"]) else rng.choice([8, 10, 12])))
     for _ in range(n_soup):
         out.append({"kind": "soup", "src": gen_soup(rng), "fn": "f", "args": []})
     return out
 
 
 def imp_ty(name):
-    if not name.startswith("math.pow_"):
-        raise ValueError("unexpected import %s" % name)
-    return "(" + c_ty(name[len("math.pow_"):]) + ")"
+    for pre, con in (("math.pow_", "IPow"), ("stateful.load_", "ILoad"), ("stateful.store_", "IStore")):
+        if name.startswith(pre):
+            return "(%s (%s))" % (con, c_ty(name[len(pre):]))
+    raise ValueError("unexpected import %s" % name)
 
 
 def c_run(ret, av, r):
@@ -858,7 +955,7 @@ def walk_kinds(b, acc):
         elif k == "cast":
             acc.append("cast:%s->%s" % (b["e"]["ty"], b["t"]))
         elif k in ("cmp", "and", "or", "not", "neg", "pow", "if", "decl", "assign", "compound", "return", "elif", "else",
-                   "for", "loop", "range", "break", "continue"):
+                   "for", "loop", "range", "break", "continue", "sdecl", "sassign", "scompound", "svar"):
             acc.append(k)
         for v in b.values():
             walk_kinds(v, acc)
@@ -958,7 +1055,7 @@ def neighbours(case, rng):
     f = case["prog"]
     for _ in range(6):
         c = json.loads(json.dumps(case))
-        c["args"] = gen_args(rng, f, 12)
+        c["args"] = gen_call_args(rng, f, 12)
         out.append(c)
     return out
 
